@@ -916,7 +916,7 @@ pub fn plan(tier: &str, seed: u64) -> Plan {
         }
     }
     // sampled larger cases
-    let extra = if thorough { 60_000 } else { 3_000 };
+    let extra = if thorough { 600_000 } else { 40_000 };
     for _ in 0..extra {
         let n = r.usize_in(nmax + 1, if thorough { 400 } else { 120 });
         let k = if r.chance(0.3) { r.usize_in(2, n.min(60)) } else { r.usize_in(2, 12.min(n)) };
